@@ -21,7 +21,7 @@ META = {
     "engine": "vtx",
     "technique": "bounded-exhaustive enumeration of (operator form, list of cold source timelines, count) on virtual time against a "
     "sequential-composition reference simulator (output instants and per-source subscription intervals)",
-    "text": "concat (function, operator, +), concat_with_iterable (list/generator), for_in, start_with, repeat, retry, catch (function, "
+    "text": "concat (function, operator, +, +=), concat_with_iterable (list/generator), for_in, start_with, repeat, retry, catch (function, "
     "iterable, operator with observable and with handler), on_error_resume_next (function, operator, factories), while_do and do_while "
     "are run on every list of <=L logged cold sources from a structural timeline set and every count within the bound; the recorded "
     "output and every source's subscribe/close instants must equal the reference, and no two sources may be running at the same step; "
@@ -65,7 +65,7 @@ def single_timelines(a, b, deep):
     out = dict(tl_set(a, b))
     if deep:
         n = 0
-        for tl in vt.timelines(3, (a, b), terminals=("C", "E", None), bursts=True, same_instant_terminal=True):
+        for tl in vt.timelines(deep, (a, b), terminals=("C", "E", None), bursts=True, same_instant_terminal=True):
             n += 1
             out[f"g{n}"] = list(tl)
             if tl:
@@ -93,6 +93,7 @@ MULTI_OPS = [
     ("concat", 0, None),
     ("concat_op", 1, None),
     ("add", 2, None),
+    ("iadd", 2, None),
     ("concat_with_iterable:list", 0, None),
     ("concat_with_iterable:gen", 1, None),
     ("for_in", 0, None),
@@ -108,8 +109,8 @@ MULTI_OPS = [
 
 def bounds(tier):
     if tier == "quick":
-        return {"L_full": 2, "L_small": 3, "counts": [0, 1, 2, 3], "takes": [1, 2], "deep_single": False, "ps": [True]}
-    return {"L_full": 3, "L_small": 4, "counts": [0, 1, 2, 3], "takes": [1, 2, 3], "deep_single": True, "ps": [True, False]}
+        return {"L_full": 2, "L_small": 3, "counts": [0, 1, 2, 3], "takes": [1, 2], "deep_single": 2, "ps": [True]}
+    return {"L_full": 3, "L_small": 4, "counts": [0, 1, 2, 3], "takes": [1, 2, 3], "deep_single": 3, "ps": [True, False]}
 
 
 def vals(seed, i):
@@ -186,6 +187,10 @@ def build(env, S, case):
         o = L[0]
         for x in L[1:]:
             o = o + x
+    elif op == "iadd":
+        o = L[0]
+        for x in L[1:]:
+            o += x
     elif op == "concat_with_iterable:list":
         o = reactivex.concat_with_iterable(list(L))
     elif op == "concat_with_iterable:gen":
@@ -235,7 +240,7 @@ def build(env, S, case):
 def model(case):
     op, P, seq = case["op"], case["params"], case["seq"]
     n = P.get("n")
-    if op in ("concat", "concat_op", "add", "concat_with_iterable:list", "concat_with_iterable:gen", "for_in", "start_with"):
+    if op in ("concat", "concat_op", "add", "iadd", "concat_with_iterable:list", "concat_with_iterable:gen", "for_in", "start_with"):
         return seqref.SeqModel(seq, "C", "C")
     if op in ("catch", "catch_with_iterable:gen", "catch_op", "catch_handler"):
         return seqref.SeqModel(seq, "E", "lastE")
@@ -297,7 +302,7 @@ def run(ctx: core.Ctx):
     ctx.bounds = {
         "sources_full_set": B["L_full"], "sources_small_set": B["L_small"], "timeline_set": list(tl_set(0, 0).keys()),
         "small_set": list(SMALL), "counts": B["counts"], "unbounded_cut_by_take": B["takes"],
-        "single_source_timelines": "structural set" + (" + TL(3,2) with bursts, same-instant terminal, sync first element" if B["deep_single"] else ""),
+        "single_source_timelines": f"structural set + TL({B['deep_single']},2) with terminal C/E/never, bursts, same-instant terminal, optionally synchronous first notification",
         "scheduler_passed_to_subscribe": B["ps"],
     }
     ctx.assumptions = [
